@@ -37,8 +37,10 @@ type OpMix struct {
 	TopUps            int // deposits for pubkeys that already are validators
 	Exits             int
 	BLSChanges        int // capella+
-	// MaxAttestations: -1 = as many as available (up to MAX_ATTESTATIONS); otherwise an upper bound.
+	// MaxAttestations: 0 = as many as available (up to MAX_ATTESTATIONS); otherwise an upper bound.
+	// NoAttestations: none at all.
 	MaxAttestations int
+	NoAttestations  bool
 	// SyncParticipation is the probability of each sync-committee bit (altair+). Negative: 0.
 	SyncParticipation float64
 	Blobs             int // number of blob KZG commitments (deneb; cut to MAX_BLOBS_PER_BLOCK)
@@ -104,7 +106,6 @@ func (p *Policy) draw(rng *rand.Rand) *OpMix {
 		TopUps:            drawCount(rng, p.TopUps),
 		Exits:             drawCount(rng, p.Exits),
 		BLSChanges:        drawCount(rng, p.BLSChanges),
-		MaxAttestations:   -1,
 		Blobs:             drawCount(rng, p.Blobs*2*rng.Float64()),
 		Transactions:      drawCount(rng, p.Transactions*2*rng.Float64()),
 		OddVoteProb:       p.OddVoteProb,
